@@ -384,8 +384,9 @@ func init() {
 			var a pArgs
 			json.Unmarshal(args, &a)
 			var r, d struct {
-				Vol int  `json:"vol"`
-				Abs bool `json:"abs"`
+				Vol  int  `json:"vol"`
+				Abs  bool `json:"abs"`
+				Spec bool `json:"spec"`
 			}
 			if json.Unmarshal(real, &r) != nil || json.Unmarshal(drv, &d) != nil {
 				return core.Disagree("malformed exchange")
@@ -398,6 +399,10 @@ func init() {
 			}
 			if r.Abs != d.Abs || (ascii && r.Vol != d.Vol) {
 				return core.Disagree("Paths.isWindowsAbs? ≠ paths.isWindowsAbs")
+			}
+			// oracle: the real function against the SPECIFICATION of "Windows-absolute" (Spec.winAbs: drive or UNC form)
+			if r.Abs != d.Spec {
+				return core.Fail("winabs-spec", fmt.Sprintf("isWindowsAbs(%q) = %v but the specification (drive letter or \\\\server\\share form) says %v", a.P, r.Abs, d.Spec))
 			}
 			return nil
 		},
